@@ -175,12 +175,14 @@ def build_harness(name="vrt", sources=None, flavour="fiber", extra_flags=()):
 
 # ----------------------------------------------------------------------------------------------- harness runs
 
-def run_vrt(exe, scenario, params, mode="dfs", max_execs=200000, seed=1, preempt=None, stdin=None, timeout=600):
+def run_vrt(exe, scenario, params, mode="dfs", max_execs=200000, seed=1, preempt=None, stdin=None, timeout=600, tailsplit=0):
     """Run the harness; returns (lines(list of dict), summary dict or None, crashed(bool), raw stderr)."""
     cmd = [exe, scenario] + ["%s=%s" % kv for kv in sorted(params.items())] + ["--mode", mode, "--max", str(max_execs),
                                                                                 "--seed", str(seed)]
     if preempt is not None:
         cmd += ["--preempt", str(preempt)]
+    if tailsplit:
+        cmd += ["--tailsplit", str(tailsplit)]
     env = dict(os.environ)
     env.setdefault("ASAN_OPTIONS", "detect_leaks=0:abort_on_error=1:detect_stack_use_after_return=0")
     rc, out, err = sh(cmd, timeout=timeout, stdin=stdin, env=env)
